@@ -187,6 +187,10 @@ def liveness(run, ns):
     if res.violated != "NobodyWaits":
         raise common.MachineryError("vacuity witness NobodyWaits was not refuted")
     run.cov.setdefault("vacuity_witnesses_refuted", []).append("NobodyWaits")
+    # deductive leg: bounded waiting for EVERY N (TLAPS) of the abstract relation that WbArbiter_MC /
+    # WbArbiter_Succ_MC refine on every transition and that every recorded cycle is validated against
+    from . import proofs
+    proofs.run_for("C09", run, with_apalache=False)
 
 
 def export_edges(n):
